@@ -131,6 +131,8 @@ def make_ops(rng, cfg, profile, tier):
             ops.append({'op': 'BAD_CATALOG', 'a': [rng.randrange(64), rng.randrange(1 << 16)]})
         elif r < 0.92:
             ops.append({'op': 'CENTRAL_MAX', 'a': []})
+        elif r < 0.935:
+            ops.append({'op': 'LATE_ATTACH', 'a': [rng.randrange(3), [rng.randrange(3) for _ in range(rng.randrange(2, 6))]]})
         else:
             ops.append({'op': 'BIOGEME', 'a': [rng.randrange(1 << 30)]})
     return ops
@@ -418,6 +420,50 @@ class Session:
                     ctx.fail('I16.refuse', f'a catalog listing the alternatives of controller {c} as {perm} (the controller has '
                                            f'{names}) was accepted')
                 ctx.log(kind, c)
+        elif kind == 'LATE_ATTACH':
+            # a catalog attached to a controller that has ALREADY been used and moved by an earlier formula: from then on
+            # both catalogs follow the controller, starting with the selection in force when the second one is attached
+            from biogeme.catalog import Catalog
+            from biogeme.controller import Controller
+            import biogeme.expressions as ex
+            first, seq = a
+            alts = ['lin', 'sq', 'cub']
+            ctl = Controller('late_shape', alts)
+            x0, x1 = ex.Variable('x0'), ex.Variable('x1')
+            bx = ex.Beta('late_bx', 0.5, None, None, 0)
+            bz = ex.Beta('late_bz', -0.25, None, None, 0)
+
+            def members(v):
+                return [ex.NamedExpression('lin', v), ex.NamedExpression('sq', v * v), ex.NamedExpression('cub', v * v * v)]
+            cat_x = Catalog('late_cat_x', members(x0), controlled_by=ctl)
+            m1 = bx * cat_x
+            m1.configure_catalogs(Configuration.from_string(f'late_shape:{alts[first]}'))
+            pw = {'lin': 1, 'sq': 2, 'cub': 3}
+            got = [float(v) for v in m1.get_value_c(database=self.db, prepare_ids=True)]
+            for g_, r_ in zip(got, self.rows):
+                if not ref.close(g_, 0.5 * r_['x0'] ** pw[alts[first]], 1e-12, 1e-13):
+                    ctx.fail('I16.eval', f'first formula on late_shape:{alts[first]}: {g_!r}')
+            cat_z = Catalog('late_cat_z', members(x1), controlled_by=ctl)
+            m2 = bx * cat_x + bz * cat_z
+            for j_, idx in enumerate([first] + list(seq)):
+                nm_ = alts[idx]
+                conf = Configuration.from_string(f'late_shape:{nm_}')
+                if j_ > 0 or first != 0:
+                    m2.configure_catalogs(conf)
+                sel = (cat_x.selected_name(), cat_z.selected_name())
+                if sel != (nm_, nm_):
+                    ctx.fail('I16.select', f'controller late_shape on {nm_} (step {j_} of {[first] + list(seq)}): its two catalogs '
+                                           f'select {sel}; the second one was attached after the controller had been moved')
+                if m2.current_configuration().get_string_id() != conf.get_string_id():
+                    ctx.fail('I16.select', f'{conf.get_string_id()} selected, {m2.current_configuration().get_string_id()} reported')
+                got = [float(v) for v in m2.get_value_c(database=self.db, prepare_ids=True)]
+                for g_, r_ in zip(got, self.rows):
+                    w_ = 0.5 * r_['x0'] ** pw[nm_] - 0.25 * r_['x1'] ** pw[nm_]
+                    if not ref.close(g_, w_, 1e-12, 1e-13):
+                        ctx.fail('I16.eval', f'late_shape:{nm_} (step {j_} of {[first] + list(seq)}): the formula evaluates to {g_!r}, '
+                                             f'written by hand it gives {w_!r}')
+            ctx.probe('catalog attached to a controller already in use')
+            ctx.log(kind, first, seq)
         elif kind == 'CENTRAL_MAX':
             from biogeme.controller import CentralController
             want = self.product_ids()
